@@ -319,4 +319,194 @@ theorem sim_step (c : NtsCfg) (tp : Spec.Topo) (pre rest : List Host) (h : Host)
     · simp only [stC, upd_other _ _ _ _ hd] at hne ⊢
       exact s.skip d hne
 
+/-! ### the two loop conditions -/
+
+theorem rfOf_of_mem (rfs : List (Nat × Nat)) (hk : (rfs.map (·.1)).Nodup) (d v : Nat) (hm : (d, v) ∈ rfs) :
+    rfOf rfs d = v := by
+  induction rfs with
+  | nil => simp at hm
+  | cons p r ih =>
+    obtain ⟨k, w⟩ := p
+    simp only [List.map_cons, List.nodup_cons] at hk
+    unfold rfOf
+    simp only [List.lookup]
+    rcases List.mem_cons.mp hm with e | hm'
+    · cases e; simp
+    · have hne : d ≠ k := by
+        intro e; subst e
+        exact hk.1 (List.mem_map.mpr ⟨(d, v), hm', rfl⟩)
+      have : (d == k) = false := by simpa using hne
+      simp only [this]
+      exact ih hk.2 hm'
+
+theorem sum_map_add {α : Type} (l : List α) (f g : α → Nat) :
+    (l.map (fun k => f k + g k)).sum = (l.map f).sum + (l.map g).sum := by
+  induction l with
+  | nil => simp
+  | cons a r ih => simp only [List.map_cons, List.sum_cons, ih]; omega
+
+theorem sum_map_zero {α : Type} (l : List α) : (l.map (fun _ => 0)).sum = 0 := by
+  induction l with
+  | nil => rfl
+  | cons a r ih => simp only [List.map_cons, List.sum_cons, ih]
+
+theorem sum_indicator (ks : List Nat) (hk : ks.Nodup) (a : Nat) (ha : a ∈ ks) :
+    (ks.map (fun k => if a = k then 1 else 0)).sum = 1 := by
+  induction ks with
+  | nil => simp at ha
+  | cons k r ih =>
+    rw [List.nodup_cons] at hk
+    simp only [List.map_cons, List.sum_cons]
+    rcases List.mem_cons.mp ha with e | ha'
+    · subst e
+      have : (r.map (fun k => if a = k then 1 else 0)).sum = 0 := by
+        have : ∀ k ∈ r, (if a = k then 1 else 0) = 0 := by
+          intro k hk'; have : a ≠ k := by intro e; subst e; exact hk.1 hk'
+          simp [this]
+        rw [List.map_congr_left this]; exact sum_map_zero r
+      simp [this]
+    · have : a ≠ k := by intro e; subst e; exact hk.1 ha'
+      simp [this, ih hk.2 ha']
+
+theorem sum_filter_keys (ks : List Nat) (hk : ks.Nodup) : ∀ (R : List Host), (∀ x ∈ R, x.dc ∈ ks) →
+    (ks.map (fun k => (R.filter (fun x => decide (x.dc = k))).length)).sum = R.length := by
+  intro R
+  induction R with
+  | nil => intro _; simpa using sum_map_zero ks
+  | cons x R ih =>
+    intro hR
+    have hx := hR x (List.mem_cons_self ..)
+    have : ∀ k, ((x :: R).filter (fun y => decide (y.dc = k))).length
+        = (R.filter (fun y => decide (y.dc = k))).length + (if x.dc = k then 1 else 0) := by
+      intro k
+      rw [List.filter_cons]
+      by_cases hd : x.dc = k <;> simp [hd]
+    simp only [this]
+    rw [sum_map_add, ih (fun y hy => hR y (List.mem_cons_of_mem _ hy)), sum_indicator ks hk x.dc hx]
+    simp
+
+theorem pointwise_eq (f : Nat → Nat) : ∀ (l : List (Nat × Nat)), (∀ p ∈ l, f p.1 ≤ p.2) →
+    (l.map (·.2)).sum ≤ (l.map (fun p => f p.1)).sum →
+    (l.map (fun p => f p.1)).sum ≤ (l.map (·.2)).sum ∧ ∀ p ∈ l, f p.1 = p.2 := by
+  intro l
+  induction l with
+  | nil => intro _ _; simp
+  | cons a r ih =>
+    intro hle hsum
+    have ha := hle a (List.mem_cons_self ..)
+    have hr : ∀ p ∈ r, f p.1 ≤ p.2 := fun p hp => hle p (List.mem_cons_of_mem _ hp)
+    have hle_r : (r.map (fun p => f p.1)).sum ≤ (r.map (·.2)).sum := by
+      clear ih hsum
+      induction r with
+      | nil => simp
+      | cons b r' ih' =>
+        have := hr b (List.mem_cons_self ..)
+        have := ih' (fun p hp => hle p (by
+          rcases List.mem_cons.mp hp with e | hp
+          · exact e ▸ List.mem_cons_self ..
+          · exact List.mem_cons_of_mem _ (List.mem_cons_of_mem _ hp))) (fun p hp => hr p (List.mem_cons_of_mem _ hp))
+        simp only [List.map_cons, List.sum_cons]; omega
+    simp only [List.map_cons, List.sum_cons] at hsum ⊢
+    have := ih hr (by omega)
+    refine ⟨by omega, ?_⟩
+    intro p hp
+    rcases List.mem_cons.mp hp with e | hp
+    · subst e; omega
+    · exact this.2 p hp
+
+/-- when the code's loop condition stops the walk, every keyspace DC has exactly rf replicas -/
+theorem model_stop (c : NtsCfg) (st : NtsSt) (g : Good c st) (hk : (c.rfs.map (·.1)).Nodup)
+    (htot : c.totalRF = (c.rfs.map (·.2)).sum)
+    (hstop : ¬ (st.replicas.length < c.totalRF ∧ haveRF c st = false)) :
+    ∀ p ∈ c.rfs, st.inDC p.1 = p.2 := by
+  by_cases hh : haveRF c st = true
+  · intro p hp
+    unfold haveRF at hh
+    simp only [Bool.and_eq_true, List.all_eq_true, beq_iff_eq] at hh
+    exact (hh.2 p hp).symm
+  · have hlen : c.totalRF ≤ st.replicas.length := by
+      have : haveRF c st = false := by simpa using hh
+      simp only [this, and_true] at hstop; omega
+    have hle : ∀ p ∈ c.rfs, st.inDC p.1 ≤ p.2 := by
+      intro p hp
+      have := g.le p.1
+      rwa [rfOf_of_mem c.rfs hk p.1 p.2 hp] at this
+    have hdc : ∀ x ∈ st.replicas, x.dc ∈ c.rfs.map (·.1) := by
+      intro x hx
+      have h1 : 0 < (st.replicas.filter (fun y => decide (y.dc = x.dc))).length :=
+        List.length_pos_of_mem (List.mem_filter.mpr ⟨hx, by simp⟩)
+      rw [g.cnt] at h1
+      have h2 := g.le x.dc
+      exact List.mem_map.mpr ⟨_, rfOf_mem c.rfs x.dc (by omega), rfl⟩
+    have hsum : (c.rfs.map (fun p => st.inDC p.1)).sum = st.replicas.length := by
+      have := sum_filter_keys (c.rfs.map (·.1)) hk st.replicas hdc
+      rw [List.map_map] at this
+      rw [← this]
+      congr 1
+      apply List.map_congr_left
+      intro p _
+      simp only [Function.comp]
+      rw [g.cnt]
+    exact (pointwise_eq st.inDC c.rfs hle (by rw [hsum, ← htot]; exact hlen)).2
+
+theorem spec_walk_stop (tp : Spec.Topo) (dcs : List Nat) (rf : Nat → Nat) (sst : Spec.St)
+    (h : dcs.all (fun dc => Spec.sufficient tp rf sst dc) = true) : ∀ l, Spec.walk tp dcs rf sst l = sst := by
+  intro l
+  cases l with
+  | nil => rfl
+  | cons a r => simp [Spec.walk, h]
+
+theorem sim_walk (c : NtsCfg) (tp : Spec.Topo) : ∀ (rest pre : List Host) (st : NtsSt) (sst : Spec.St),
+    Env c tp (pre ++ rest) → Good c st → J pre st → Sim c st sst →
+    (ntsWalk c st rest).replicas = (Spec.walk tp (c.rfs.map (·.1)) (rfOf c.rfs) sst rest).replicas := by
+  intro rest
+  induction rest with
+  | nil => intro pre st sst _ _ _ s; simp [ntsWalk, Spec.walk, s.reps]
+  | cons h rest ih =>
+    intro pre st sst env g j s
+    have env' : Env c tp ((pre ++ [h]) ++ rest) := by simpa using env
+    have hcnt : ∀ d, (sst.dcReplicas d).length = st.inDC d := by intro d; rw [s.dcr d, g.cnt d]
+    by_cases hS : (c.rfs.map (·.1)).all (fun dc => Spec.sufficient tp (rfOf c.rfs) sst dc) = true
+    · -- Cassandra's loop stops here
+      rw [spec_walk_stop tp _ _ sst hS]
+      unfold ntsWalk
+      simp only [g.nocrash, Bool.false_eq_true, if_false]
+      by_cases hM : st.replicas.length < c.totalRF ∧ haveRF c st = false
+      · simp only [hM, and_self, if_true]
+        have hskip : ntsStep c st h = st := by
+          apply ntsStep_skip
+          by_cases h0 : rfOf c.rfs h.dc = 0
+          · exact Or.inl h0
+          · right
+            have hmem : h.dc ∈ c.rfs.map (·.1) := List.mem_map.mpr ⟨_, rfOf_mem c.rfs h.dc h0, rfl⟩
+            have hsuf := (List.all_eq_true.mp hS) h.dc hmem
+            simp only [Spec.sufficient, hcnt, ge_iff_le, decide_eq_true_eq] at hsuf
+            have h1 := count_le c pre st g j h.dc
+            have h2 := env.nodes h.dc
+            simp only [List.filter_append, List.length_append, List.filter_cons, decide_true, if_true,
+              List.length_cons] at h2
+            have := g.le h.dc
+            omega
+        rw [hskip, ih (pre ++ [h]) st sst env' g (j_mono pre h st j) s, spec_walk_stop tp _ _ sst hS, s.reps]
+      · simp only [hM, if_false, s.reps]
+    · -- Cassandra's loop goes on: so does the code's
+      have hM : st.replicas.length < c.totalRF ∧ haveRF c st = false := by
+        refine Classical.byContradiction (fun hstop => hS ?_)
+        have hall := model_stop c st g env.keys env.tot hstop
+        rw [List.all_eq_true]
+        intro d hd
+        obtain ⟨p, hp, rfl⟩ := List.mem_map.mp hd
+        simp only [Spec.sufficient, hcnt, ge_iff_le, decide_eq_true_eq]
+        rw [hall p hp, rfOf_of_mem c.rfs env.keys p.1 p.2 hp]
+        exact Nat.min_le_right _ _
+      have hnew : h ∉ pre := by
+        intro hm
+        have := env.nd
+        rw [List.nodup_append] at this
+        exact this.2.2 h hm h (List.mem_cons_self ..) rfl
+      unfold ntsWalk Spec.walk
+      simp only [g.nocrash, Bool.false_eq_true, if_false, hM, and_self, if_true, hS]
+      exact ih (pre ++ [h]) _ _ env' (good_step c st h g) (j_step c pre h st g j hnew)
+        (sim_step c tp pre rest h st sst env g j s)
+
 end C10NtsSpec
